@@ -109,8 +109,48 @@ STRS = ["", "abc", "a'b", 'a"b', "a'b\"c", "back\\slash", "line\nbreak", "tab\t"
         "\ud800", "\x00", "\x7f", "\xa0", "{urn:x}local", "None", "float(\"inf\")", " spaces ", "\\n", "'''", '"""']
 
 
+LONG_LENGTHS = [(66, 82), (138, 152), (210, 222), (300, 340)]
+SPECIALS = ["\n", "\\", "'", '"', "\x12", "\t", " ", "\x7f", "é", "😀", "\x00", "\\n", "\\'", "\ud800", "{", "}", "%"]
+
+
+def long_len(r):
+    lo, hi = r.choice(LONG_LENGTHS)
+    return r.randint(lo, hi)
+
+
+def g_long_str(r):
+    """Long strings (around 72, 144, 216 and 300+ characters) with characters that repr() escapes, both
+    quote kinds, non-ASCII and astral characters placed at every offset relative to multiples of 72."""
+    n = long_len(r)
+    chars = [r.choice("abcdefghij klmnopqrstuvwxyz0123456789") for _ in range(n)]
+    quotes = r.choice(["", "'", '"', "'\""])
+    spots = [r.randrange(n) for _ in range(r.randint(0, 3))]
+    for base in range(72, n + 8, 72):                      # something escaped close to each multiple of 72
+        if r.random() < 0.85:
+            spots.append(min(n - 1, max(0, base - r.randint(0, 8))))
+    for p in spots:
+        chars[p] = r.choice(SPECIALS + list(quotes) * 3) if quotes else r.choice(SPECIALS[:2] + SPECIALS[4:])
+    if r.random() < 0.15:                                   # escapes everywhere: each source char takes 2-6 text chars
+        chars = [r.choice(["\n", "\\", "\x12", " ", "'", "\x00"]) for _ in range(n // 2)]
+    return "".join(chars)
+
+
+def g_long_bytes(r):
+    n = long_len(r)
+    b = bytearray(r.choice(b"abcdefghijklmnopqrstuvwxyz 0123456789") for _ in range(n))
+    spots = [r.randrange(n) for _ in range(r.randint(0, 3))]
+    for base in range(72, n + 8, 72):
+        if r.random() < 0.85:
+            spots.append(min(n - 1, max(0, base - r.randint(0, 8))))
+    for p in spots:
+        b[p] = r.choice([10, 92, 39, 34, 0, 9, 13, 127, 200, 255, 0x12])
+    return bytes(b)
+
+
 def g_str(r):
     k = r.random()
+    if k < 0.12:
+        return g_long_str(r)
     if k < 0.5:
         return r.choice(STRS)
     n = r.randint(0, 6)
@@ -119,6 +159,10 @@ def g_str(r):
 
 
 def g_int(r):
+    if r.random() < 0.06:                                   # very long ints: 70-80, 140-150, 300+ digits
+        nd = long_len(r)
+        z = r.randint(10 ** (nd - 1), 10 ** nd)
+        return -z if r.random() < 0.4 else z
     return r.choice([0, 1, -1, 2, 7, -5, 255, 10 ** 30, -10 ** 20, r.randint(-1000, 1000), r.randint(-2 ** 70, 2 ** 70)])
 
 
@@ -139,6 +183,10 @@ DECS = ["0", "-0", "1", "1.0", "1.00", "1E+3", "-1.50E+3", "0E-7", "NaN", "-NaN"
 
 
 def g_dec(r):
+    if r.random() < 0.06:                                   # very long Decimals (exact from the string)
+        from decimal import Decimal
+        digits = tuple(r.randint(0, 9) for _ in range(long_len(r)))
+        return str(Decimal((r.randint(0, 1), (r.randint(1, 9),) + digits, r.choice([0, -3, -80, 7, -(len(digits) + 5)]))))
     if r.random() < 0.7:
         return r.choice(DECS)
     from decimal import Decimal
@@ -157,6 +205,8 @@ def g_qname(r, bad=0.12):
 
 def g_bytes(r):
     k = r.random()
+    if k < 0.08:
+        return g_long_bytes(r)
     if k < 0.4:
         return r.choice([b"", b"abc", b"'", b'"', b"'\"", b"\x00\xff", b"\\", b"\n"])
     return bytes(r.randint(0, 255) for _ in range(r.randint(0, 6)))
